@@ -171,10 +171,14 @@ class Session:
                 return got
         k = ev[0]
         if k == "config":
-            content = pickle.dumps(fx.c[ev[1]]) if ev[1] != "X" else b"\x80not a pickle"
+            if ev[1] == "J":       # unpickles to a dict, but JSON cannot store it (a bytes value): the handler fails half-way
+                content = pickle.dumps(dict(fx.c[1], note=b"\x00bytes"))
+            else:
+                content = pickle.dumps(fx.c[ev[1]]) if ev[1] != "X" else b"\x80not a pickle"
             await self.conn.send("config", content)
         elif k == "upload":
-            await self.conn.send("upload_edb", fx.e[ev[1]])
+            # "J": an index the handler cannot store (a str where bytes are expected): it fails while writing
+            await self.conn.send("upload_edb", fx.e[ev[1]] if ev[1] != "J" else "not bytes")
         elif k == "search":
             content = fx.t[ev[1]] if ev[1] != "X" else b"short"
             await self.conn.send("token", content, token_digest=b"d")
